@@ -230,10 +230,9 @@ def build_optimized_pattern(choices: list[ChoiceChoice], repeat: str = "") -> st
             case UnicodePropertyRule(expression=RegexExpression(pattern=pattern)):
                 unicode_props.append(pattern)
             case ChoiceLiteral(value=val, case=ChoiceCase.INSENSITIVE) if len(val) == 1:
-                char_class_parts.append(val.upper())
-                char_class_parts.append(val.lower())
+                char_class_parts.extend(_ascii_case_variants(val))
             case ChoiceLiteral(value=val, case=ChoiceCase.INSENSITIVE):
-                insensitive_parts.append(f"(?i:{re.escape(val)})")
+                insensitive_parts.append(_ascii_insensitive(val))
             case ChoiceLiteral(value=val, case=ChoiceCase.SENSITIVE) if len(val) == 1:
                 char_class_parts.append(val)
             case ChoiceLiteral(value=val, case=ChoiceCase.SENSITIVE):
@@ -260,6 +259,20 @@ def build_optimized_pattern(choices: list[ChoiceChoice], repeat: str = "") -> st
             return f"(?:{parts[0]}){repeat}"
         return parts[0]
     return "(?:" + "|".join(parts) + ")" + repeat
+
+
+def _ascii_case_variants(ch: str) -> list[str]:
+    """The characters `^"ch"` matches: pest folds ASCII letters only."""
+    if ch.isascii() and ch.isalpha():
+        return [ch.upper(), ch.lower()]
+    return [ch]
+
+
+def _ascii_insensitive(value: str) -> str:
+    """A pattern matching `value` ignoring the case of ASCII letters only."""
+    return "".join(
+        _optimize_char_class(_ascii_case_variants(ch), []) for ch in value
+    )
 
 
 def _first_chars(choice: ChoiceLiteral) -> set[str]:
@@ -319,9 +332,9 @@ def _ordered_pattern(choices: list[ChoiceChoice], repeat: str) -> str:
             case UnicodePropertyRule(expression=RegexExpression(pattern=pattern)):
                 parts.append(pattern)
             case ChoiceLiteral(value=val, case=ChoiceCase.INSENSITIVE) if len(val) == 1:
-                parts.append(_optimize_char_class([val.upper(), val.lower()], []))
+                parts.append(_optimize_char_class(_ascii_case_variants(val), []))
             case ChoiceLiteral(value=val, case=ChoiceCase.INSENSITIVE):
-                parts.append(f"(?i:{re.escape(val)})")
+                parts.append(_ascii_insensitive(val))
             case ChoiceLiteral(value=val):
                 parts.append(re.escape(val))
             case ChoiceRange(start, end):
